@@ -190,6 +190,8 @@ func runC(t *testing.T, sc Scenario) *core.Result {
 		commonProbes(w, &sc)
 		srvNode := w.Net.Node("srv", "10.0.0.1")
 		h := sys.NewHandler(w)
+		// the application reports authentication failures wrapped in a third of the runs
+		h.WrapAuthErr = core.HS(sc.Seed, "c10.wrapautherr", "", 0)%3 == 0
 		srv := &gortsplib.Server{RTSPAddress: "10.0.0.1:8554", Handler: h, AuthMethods: verifyMethods(sc.Methods), IdleTimeout: 600 * time.Second}
 		h.Server = srv
 		var amu sync.Mutex
